@@ -114,6 +114,8 @@ type Group struct {
 	httptsGopCache *remux.GopCacheMpegts
 	// rtsp使用
 	sdpCtx *sdp.LogicContext
+	// feedingNonKeyVideoMsg rtmp2RtspRemuxer is being fed a video message that is not a key frame, see feedRtpPacket
+	feedingNonKeyVideoMsg bool
 	// mpegts使用
 	patpmt []byte
 	// sub
